@@ -67,6 +67,25 @@ int main (int argc, char** argv)
     out_vec ("g", t); out_vec ("w", m2);
     if (!symbolic) for (unsigned i=0; i<4; i++) expect ("transform(S,J) = Mueller(J) S", t[i], m2[i]);
   }, false);
+  // transform (Mueller (J), rho) = J rho J^dagger: the coherency matrix transformed through the Mueller matrix
+  per_basis ("transform_coherency_mueller", [] {
+    Jones<double> j = jones_in ("j"), rho = jones_in ("p");
+    Jones<double> r = transform (Mueller (j), rho), w = j * rho * herm (j);
+    out_jones ("g", r); out_jones ("w", w);
+    if (!symbolic) for (unsigned i=0; i<4; i++) expect ("transform(Mueller(J), rho) = J rho J^dagger", r[i], w[i]);
+  }, false);
+  // accessors of Stokes: scalar and vector parts, their setters, squared and absolute polarization, invariant
+  fn ("stokes_accessors", [] { Stokes<double> s = stokes_in ("s"); Vector<3,double> v; for (unsigned i=0; i<3; i++) v[i] = in (nm ("v", i).c_str()); double t = in ("t");
+    out ("scalar", s.get_scalar ()); out_vec<3> ("vector", s.get_vector ()); out ("sqr", s.sqr_vect ()); out ("abs2", s.abs_vect () * s.abs_vect ()); out ("inv", s.invariant ());
+    Stokes<double> u = s; u.set_scalar (t); out_vec ("u", u); Stokes<double> w = s; w.set_vector (v); out_vec ("w", w);
+    if (!symbolic) { expect ("get_scalar", s.get_scalar (), s[0]); expect ("set_scalar keeps the vector", u[2], s[2]); expect ("set_scalar", u[0], t);
+      for (unsigned i=0; i<3; i++) { expect ("get_vector", s.get_vector ()[i], s[i+1]); expect ("set_vector", w[i+1], v[i]); } expect ("set_vector keeps the scalar", w[0], s[0]);
+      expect ("invariant", s.invariant (), s[0]*s[0] - s[1]*s[1] - s[2]*s[2] - s[3]*s[3]); } });
+  // coherency vector (rho00, rho11, Re rho10, Im rho10) to Jones matrix
+  fn ("coherency_vector_convert", [] { std::vector<double> c (4); for (unsigned i=0; i<4; i++) c[i] = in (nm ("c", i).c_str());
+    Jones<double> r = convert (c), w (c[0], cd (c[2], -c[3]), cd (c[2], c[3]), c[1]);
+    out_jones ("g", r); out_jones ("w", w);
+    if (!symbolic) for (unsigned i=0; i<4; i++) expect ("convert(coherency vector)", r[i], w[i]); });
   // the congruence J rho J^dagger on the coherency matrix
   per_basis ("transform_congruence", [] {
     Stokes<double> s = stokes_in ("s"); Jones<double> j = jones_in ("j");
@@ -167,6 +186,13 @@ int main (int argc, char** argv)
     }
   }
 
+#ifndef SYMX_SYMBOLIC
+  // converting constructors of Stokes: every component carried over, in order
+  fn ("stokes_conversion_plain", [] { Stokes<float> sf (1.5f, -0.25f, 0.5f, 0.75f); Stokes<double> sd (sf); Stokes<float> back (sd);
+    const double want[4] = { 1.5, -0.25, 0.5, 0.75 };
+    for (unsigned i=0; i<4; i++) { expect ("Stokes<double> from Stokes<float>", sd[i], want[i]); expect ("Stokes<float> from Stokes<double>", double (back[i]), want[i]); }
+    Stokes<cd> sc (sd); for (unsigned i=0; i<4; i++) expect ("Stokes<complex> from Stokes<double>", sc[i], cd (want[i])); }, 1);
+#endif
 #ifndef SYMX_SYMBOLIC
   // every history of basis settings (length <= 4 over linear, circular and three different elliptical bases), every
   // derived function evaluated after every step: the pictures must agree in the state the process is in now, whatever it
